@@ -218,7 +218,6 @@ PointClass(V, F, p) ==
 ConvexClass(V, F, p) ==
   IF \A i \in FaceIdx(F) : Orient(V[F[i][1]], V[F[i][2]], V[F[i][3]], p) < 0 THEN "in"
   ELSE IF \E i \in FaceIdx(F) : Orient(V[F[i][1]], V[F[i][2]], V[F[i][3]], p) > 0 THEN "out" ELSE "on"
-Double(V) == [i \in 1..Len(V) |-> Scale(2, V[i])]     \* observers are logged in doubled coordinates (half-lattice)
 
 \* ------------------------------------------------------------------ reference reorientation
 \* orient every edge-connected component from its first face by propagation over shared edges, then flip the whole
